@@ -292,6 +292,31 @@ func extractC33Routes(x *ExtractCtx) error {
 		return fmt.Errorf("MakeHostnameRoutingHandler call with 5 arguments not found in SetupServer")
 	}
 
+	// --- the host tests of the router and of the virtual-host middleware, as data ---
+	vf, err := x.ParseFile("internal/http/middleware/virtualhostbucketaddressing.go")
+	if err != nil {
+		return err
+	}
+	vhf := FindFunc(vf, "", "MakeVirtualHostBucketAddressingMiddleware")
+	if vhf == nil {
+		return fmt.Errorf("MakeVirtualHostBucketAddressingMiddleware not found")
+	}
+	x.Note("MakeVirtualHostBucketAddressingMiddleware", vhf)
+	routerTests, routerStrip, err := c33HostTests(x, hrf, map[string]string{"apiEndpoint": "api", "websiteEndpoint": "website"})
+	if err != nil {
+		return err
+	}
+	vhostTests, vhostStrip, err := c33HostTests(x, vhf, map[string]string{"baseEndpoint": "api"})
+	if err != nil {
+		return err
+	}
+	fallbackStrip := ""
+	for _, st := range fallbackLit.Body.List {
+		if ifs, ok := st.(*ast.IfStmt); ok && fallbackStrip == "" {
+			fallbackStrip = c33Squash(x.Src(ifs))
+		}
+	}
+
 	// --- the method set of storage.Storage ---
 	sf, err := x.ParseFile("internal/storage/storage.go")
 	if err != nil {
@@ -348,7 +373,7 @@ func extractC33Routes(x *ExtractCtx) error {
 
 	// --- emit ---
 	w := x.Lean
-	fmt.Fprintf(w, "namespace Pithos.Gen.C33Routes\n\n")
+	fmt.Fprintf(w, "import Pithos.Model.VHost\n\nnamespace Pithos.Gen.C33Routes\n\n")
 	emitRoutes := func(name string, rs []c33Route) {
 		fmt.Fprintf(w, "/-- (method, pattern, handler) registered on %s, in source order. -/\n", name)
 		fmt.Fprintf(w, "def %s : List (String × String × String) := [\n", map[string]string{"apiMux": "apiRoutes", "websiteMux": "websiteRoutes"}[name])
@@ -379,8 +404,158 @@ func extractC33Routes(x *ExtractCtx) error {
 	fmt.Fprintf(w, "def hostRoutingServes : List String := %s\n\n", LeanStrList(routingTargets))
 	fmt.Fprintf(w, "/-- the arguments of the MakeHostnameRoutingHandler call in SetupServer. -/\n")
 	fmt.Fprintf(w, "def hostRoutingWiring : List String := %s\n\n", LeanStrList(wiring))
+	fmt.Fprintf(w, "/-- the `if` conditions on the host in MakeHostnameRoutingHandler, in source order, with what the\nbranch serves. -/\n")
+	fmt.Fprintf(w, "def routerHostTests : List (Pithos.VHost.HostExpr × List String) := [\n  %s\n]\n\n", strings.Join(routerTests, ",\n  "))
+	fmt.Fprintf(w, "/-- the `if` conditions on the host in MakeVirtualHostBucketAddressingMiddleware. -/\n")
+	fmt.Fprintf(w, "def vhostHostTests : List (Pithos.VHost.HostExpr × List String) := [\n  %s\n]\n\n", strings.Join(vhostTests, ",\n  "))
+	fmt.Fprintf(w, "/-- the port-stripping statement of the three places that read r.Host (router, virtual-host\nmiddleware, custom-domain fallback), white space squashed, host variable renamed to `h`. -/\n")
+	fmt.Fprintf(w, "def portStrips : List String := %s\n\n", LeanStrList([]string{routerStrip, vhostStrip, strings.ReplaceAll(fallbackStrip, "host", "h")}))
 	fmt.Fprintf(w, "/-- the method set of storage.Storage. -/\n")
 	fmt.Fprintf(w, "def storageMethods : List String := %s\n\n", LeanStrList(storageMethods))
 	fmt.Fprintf(w, "end Pithos.Gen.C33Routes\n")
 	return nil
+}
+
+func c33Squash(s string) string { return strings.Join(strings.Fields(s), " ") }
+
+// c33HostTests reads, inside the handler literal of fn, the variable bound to r.Host, the
+// port-stripping statement and every later `if` whose condition mentions that variable; each
+// condition is rendered as a Pithos.VHost.HostExpr (unknown shapes become `.other "<src>"`, which
+// no theorem accepts) together with the `.ServeHTTP` receivers / the marker "rewrite" of its body.
+func c33HostTests(x *ExtractCtx, fn *ast.FuncDecl, endpoints map[string]string) ([]string, string, error) {
+	// suffix variables: <v> := "." + <endpoint param>
+	suffixOf := map[string]string{}
+	var lit *ast.FuncLit
+	ast.Inspect(fn.Body, func(n ast.Node) bool {
+		switch v := n.(type) {
+		case *ast.AssignStmt:
+			if len(v.Lhs) == 1 && len(v.Rhs) == 1 {
+				if id, ok := v.Lhs[0].(*ast.Ident); ok {
+					if be, ok := v.Rhs[0].(*ast.BinaryExpr); ok && be.Op == token.ADD {
+						if l, ok := be.X.(*ast.BasicLit); ok && l.Value == "\".\"" {
+							if r, ok := be.Y.(*ast.Ident); ok && endpoints[r.Name] != "" {
+								suffixOf[id.Name] = endpoints[r.Name]
+							}
+						}
+					}
+				}
+			}
+		case *ast.FuncLit:
+			if lit == nil {
+				lit = v
+			}
+		}
+		return true
+	})
+	if lit == nil {
+		return nil, "", fmt.Errorf("%s: handler literal not found", fn.Name.Name)
+	}
+	hostVar := ""
+	strip := ""
+	var tests []string
+	var render func(e ast.Expr) string
+	render = func(e ast.Expr) string {
+		other := func() string { return "(.other " + LeanStr(c33Squash(x.Src(e))) + ")" }
+		switch v := e.(type) {
+		case *ast.ParenExpr:
+			return render(v.X)
+		case *ast.BinaryExpr:
+			switch v.Op {
+			case token.LOR:
+				return "(.or " + render(v.X) + " " + render(v.Y) + ")"
+			case token.LAND:
+				return "(.and " + render(v.X) + " " + render(v.Y) + ")"
+			case token.EQL, token.NEQ:
+				l, lok := v.X.(*ast.Ident)
+				r, rok := v.Y.(*ast.Ident)
+				if lok && rok && l.Name == hostVar && endpoints[r.Name] != "" {
+					if v.Op == token.EQL {
+						return "(.eq " + LeanStr(endpoints[r.Name]) + ")"
+					}
+					return "(.ne " + LeanStr(endpoints[r.Name]) + ")"
+				}
+			}
+			return other()
+		case *ast.CallExpr:
+			sel, ok := v.Fun.(*ast.SelectorExpr)
+			if !ok || len(v.Args) != 2 {
+				return other()
+			}
+			pkg, ok := sel.X.(*ast.Ident)
+			a0, ok0 := v.Args[0].(*ast.Ident)
+			a1, ok1 := v.Args[1].(*ast.Ident)
+			if !ok || pkg.Name != "strings" || !ok0 || !ok1 || a0.Name != hostVar || suffixOf[a1.Name] == "" {
+				return other()
+			}
+			switch sel.Sel.Name {
+			case "HasSuffix":
+				return "(.hasSuffixDot " + LeanStr(suffixOf[a1.Name]) + ")"
+			case "HasPrefix":
+				return "(.hasPrefixDot " + LeanStr(suffixOf[a1.Name]) + ")"
+			case "Contains":
+				return "(.containsDot " + LeanStr(suffixOf[a1.Name]) + ")"
+			}
+			return other()
+		}
+		return other()
+	}
+	mentionsHost := func(e ast.Expr) bool {
+		found := false
+		ast.Inspect(e, func(n ast.Node) bool {
+			if id, ok := n.(*ast.Ident); ok && id.Name == hostVar {
+				found = true
+			}
+			return true
+		})
+		return found
+	}
+	for _, st := range lit.Body.List {
+		switch v := st.(type) {
+		case *ast.AssignStmt:
+			if hostVar == "" && len(v.Lhs) == 1 && len(v.Rhs) == 1 && c33Squash(x.Src(v.Rhs[0])) == "r.Host" {
+				if id, ok := v.Lhs[0].(*ast.Ident); ok {
+					hostVar = id.Name
+				}
+			}
+		case *ast.IfStmt:
+			if hostVar == "" {
+				return nil, "", fmt.Errorf("%s: an if statement precedes the binding of r.Host", fn.Name.Name)
+			}
+			if v.Init != nil { // the port strip: if colonIdx := strings.LastIndex(host, ":"); …
+				if strip != "" {
+					return nil, "", fmt.Errorf("%s: more than one if-with-init on the host", fn.Name.Name)
+				}
+				strip = strings.ReplaceAll(c33Squash(x.Src(v)), hostVar, "h")
+				continue
+			}
+			if !mentionsHost(v.Cond) {
+				return nil, "", fmt.Errorf("%s: unrecognised top-level if: %s", fn.Name.Name, c33Squash(x.Src(v.Cond)))
+			}
+			var serves []string
+			ast.Inspect(v.Body, func(n ast.Node) bool {
+				switch b := n.(type) {
+				case *ast.CallExpr:
+					if sel, ok := b.Fun.(*ast.SelectorExpr); ok && sel.Sel.Name == "ServeHTTP" {
+						serves = append(serves, x.Src(sel.X))
+					}
+				case *ast.AssignStmt:
+					if len(b.Lhs) == 1 && strings.HasPrefix(c33Squash(x.Src(b.Lhs[0])), "r.URL.") {
+						if len(serves) == 0 || serves[len(serves)-1] != "rewrite" {
+							serves = append(serves, "rewrite")
+						}
+					}
+				}
+				return true
+			})
+			if v.Else != nil {
+				return nil, "", fmt.Errorf("%s: host test with an else branch", fn.Name.Name)
+			}
+			tests = append(tests, "("+render(v.Cond)+", "+LeanStrList(serves)+")")
+			x.Note(fn.Name.Name+" host test", v)
+		}
+	}
+	if hostVar == "" || strip == "" || len(tests) == 0 {
+		return nil, "", fmt.Errorf("%s: host variable / port strip / host tests not found", fn.Name.Name)
+	}
+	return tests, strip, nil
 }
